@@ -77,7 +77,7 @@ def make_case(g, a, b):
         post = post + [r.choice(["2", "3", "42"])]
     if not pre and not post:
         post = g.words(1, 1, avoid=avoid)
-    prefix = r.choice(["", "", "", "_", "__"]) if style in ("Snake", "ScreamingSnake", "Camel", "Pascal") else ""
+    prefix = r.choice(["", "", "", "_", "__"])
     trail = style in SEP and r.random() < 0.1
     kind = r.random()
     if kind < 0.12:
